@@ -70,6 +70,84 @@ def construction_sites(g):
     return sites
 
 
+def group_filters(ctx, rep, rule, sn, names=('deserialize_pk', 'deserialize_sk', 'derive_auth_keypair')):
+    """every Ok path of the group's decoders / seeded derivation passed the filters that make the result a valid key (C11 R11.3, C19 R19.4)"""
+    S = ctx.suite(sn)
+    P = suite_params(sn)
+    n_filters = 0
+    # R11.3
+    def impl(name, default=False):
+        bs = [b for b in S.bodies.values() if b.get('name') == name and (b.get('impl_trait_dpath') == KEG or (default and b.get('trait_default')))]
+        return bs
+    ke = P['ke']
+    for name in names:
+        bs = impl(name, default=True)
+        if len(bs) != 1:
+            rep.ob(rule, 'KeGroup::%s instance found' % name, False, 'instances=%d' % len(bs), '', sn)
+            continue
+        s = ctx.summary(sn, bs[0]['generic_path'], params=[Sym('bytes')])
+        w = where_of(s)
+        rep.ob(rule, 'KeGroup::%s summarised with an Ok path' % name, s.complete and bool(s.ok_paths), str(s.notes), w, sn)
+        for p in s.ok_paths:
+            outs = {e[1][1]: e[2] for e in p.events if e[0] == 'outcome' and e[1][0] == 'app'}
+            assumes = [(e[1], e[2]) for e in p.events if e[0] == 'assume']
+            val = p.payload
+
+            def ne_const(pred):
+                """an assumed (eq|ct_eq)(candidate, constant) == false where pred(constant side)"""
+                for t, v in assumes:
+                    if v == 0 and t[0] == 'app' and t[1] in ('eq', 'ct_eq'):
+                        a, b = t[2]
+                        for x, y in ((a, b), (b, a)):
+                            if pred(x) and (contains(y, val) or y == val or mentions(y, Sym('bytes'))):
+                                return True
+                return False
+            is_ident = lambda x: x[0] == 'app' and x[1].endswith('Identity::identity')
+            is_zero = lambda x: (x[0] == 'bytes' and set(x[1]) <= {0} and len(x[1]) >= 16) or (x[0] == 'app' and x[1].endswith('to_bytes') and x[2] and x[2][0][0] == 'bytes' and set(x[2][0][1]) <= {0})
+            checks = []
+            if name == 'deserialize_pk':
+                if ke == 'r255':
+                    checks = [('decompression succeeded', outs.get('curve25519_dalek::ristretto::CompressedRistretto::decompress') == 'Some'),
+                              ('!= identity', ne_const(is_ident))]
+                elif ke == 'c25519':
+                    def small_order_guard():
+                        for t, v in assumes:
+                            if t[0] == 'app' and t[1] in ('eq', 'ct_eq') and v == 0:
+                                a, b = t[2]
+                                for x, y in ((a, b), (b, a)):
+                                    if is_ident(x) and y[0] == 'app' and (y[1] in ('mul',) or 'mul_by_cofactor' in y[1] or 'mul_clamped' in y[1] or 'mul_bits_be' in y[1]) and mentions(y, Sym('bytes')):
+                                        return True
+                            if t[0] == 'app' and ('is_small_order' in t[1]) and v == 0 and mentions(t, Sym('bytes')):
+                                return True
+                            if t[0] == 'app' and ('is_torsion_free' in t[1]) and v == 1 and mentions(t, Sym('bytes')):
+                                return True
+                        return False
+                    checks = [('Curve25519::deserialize_pk: every Ok path passes a small-order guard', small_order_guard())]
+                else:
+                    checks = [('from_sec1_bytes succeeded (on-curve, in range, non-identity)', outs.get('elliptic_curve::public_key::PublicKey::from_sec1_bytes') == 'Ok')]
+            elif name == 'deserialize_sk':
+                if ke == 'r255':
+                    canon = any(e[0] == 'outcome' and e[2] == 'Some' and find_apps(e[1], 'curve25519_dalek::scalar::Scalar::from_canonical_bytes') for e in p.events)
+                    checks = [('canonical scalar', canon), ('!= 0', ne_const(is_zero))]
+                elif ke == 'c25519':
+                    fixed = any(t[0] == 'app' and t[1] == 'eq' and v == 1 and any(x[0] == 'app' and 'clamp_integer' in x[1] for x in t[2]) and Sym('bytes') in t[2] for t, v in assumes)
+                    checks = [('clamping fixed point', fixed), ('!= 0', ne_const(is_zero))]
+                else:
+                    checks = [('from_slice succeeded (non-zero, below the order)', outs.get('elliptic_curve::secret_key::SecretKey::from_slice') == 'Ok')]
+            else:
+                if ke == 'c25519':
+                    checks = [('clamped', bool(find_apps(val, 'curve25519_dalek::scalar::clamp_integer')))]
+                else:
+                    nz = any(t[0] == 'app' and t[1] == 'KeGroup::is_zero_scalar' and v == 0 and t[2][0] == val for t, v in assumes)
+                    checks = [('Ok only after is_zero_scalar(result) = false', nz)]
+            for what, good in checks:
+                n_filters += int(good)
+                inst = what if what.startswith('Curve25519') else 'KeGroup::%s (%s): %s' % (name, ke, what)
+                rep.ob(rule, inst, good, 'filter not passed on an Ok path; assumptions on the path: %s ; outcomes: %s' % (
+                    [(show(t)[:100], v) for t, v in assumes][:6], outs), w, sn, sample='%s -> %s' % (inst, show(val)[:100]))
+    return n_filters
+
+
 def run(ctx):
     rep = core.Report('C11', ctx.tier, EXPLANATION, ASSUMPTIONS)
     # ---- R11.1 on generic facts
@@ -154,76 +232,7 @@ def run(ctx):
                     rep.ob('R11.2', 'no raw group-typed field outside the key newtypes: %s.%s' % (t['dpath'].split('::')[-1], f['name']),
                            f['ty'] not in raw, 'field type %s' % f['ty'], '', sn)
         rep.ob('R11.2', 'fields inspected', n_seen >= 30, 'fields=%d' % n_seen, '', sn)
-        # R11.3
-        def impl(name, default=False):
-            bs = [b for b in S.bodies.values() if b.get('name') == name and (b.get('impl_trait_dpath') == KEG or (default and b.get('trait_default')))]
-            return bs
-        ke = P['ke']
-        for name in ('deserialize_pk', 'deserialize_sk', 'derive_auth_keypair'):
-            bs = impl(name, default=True)
-            if len(bs) != 1:
-                rep.ob('R11.3', 'KeGroup::%s instance found' % name, False, 'instances=%d' % len(bs), '', sn)
-                continue
-            s = ctx.summary(sn, bs[0]['generic_path'], params=[Sym('bytes')])
-            w = where_of(s)
-            rep.ob('R11.3', 'KeGroup::%s summarised with an Ok path' % name, s.complete and bool(s.ok_paths), str(s.notes), w, sn)
-            for p in s.ok_paths:
-                outs = {e[1][1]: e[2] for e in p.events if e[0] == 'outcome' and e[1][0] == 'app'}
-                assumes = [(e[1], e[2]) for e in p.events if e[0] == 'assume']
-                val = p.payload
-
-                def ne_const(pred):
-                    """an assumed (eq|ct_eq)(candidate, constant) == false where pred(constant side)"""
-                    for t, v in assumes:
-                        if v == 0 and t[0] == 'app' and t[1] in ('eq', 'ct_eq'):
-                            a, b = t[2]
-                            for x, y in ((a, b), (b, a)):
-                                if pred(x) and (contains(y, val) or y == val or mentions(y, Sym('bytes'))):
-                                    return True
-                    return False
-                is_ident = lambda x: x[0] == 'app' and x[1].endswith('Identity::identity')
-                is_zero = lambda x: (x[0] == 'bytes' and set(x[1]) <= {0} and len(x[1]) >= 16) or (x[0] == 'app' and x[1].endswith('to_bytes') and x[2] and x[2][0][0] == 'bytes' and set(x[2][0][1]) <= {0})
-                checks = []
-                if name == 'deserialize_pk':
-                    if ke == 'r255':
-                        checks = [('decompression succeeded', outs.get('curve25519_dalek::ristretto::CompressedRistretto::decompress') == 'Some'),
-                                  ('!= identity', ne_const(is_ident))]
-                    elif ke == 'c25519':
-                        def small_order_guard():
-                            for t, v in assumes:
-                                if t[0] == 'app' and t[1] in ('eq', 'ct_eq') and v == 0:
-                                    a, b = t[2]
-                                    for x, y in ((a, b), (b, a)):
-                                        if is_ident(x) and y[0] == 'app' and (y[1] in ('mul',) or 'mul_by_cofactor' in y[1] or 'mul_clamped' in y[1] or 'mul_bits_be' in y[1]) and mentions(y, Sym('bytes')):
-                                            return True
-                                if t[0] == 'app' and ('is_small_order' in t[1]) and v == 0 and mentions(t, Sym('bytes')):
-                                    return True
-                                if t[0] == 'app' and ('is_torsion_free' in t[1]) and v == 1 and mentions(t, Sym('bytes')):
-                                    return True
-                            return False
-                        checks = [('Curve25519::deserialize_pk: every Ok path passes a small-order guard', small_order_guard())]
-                    else:
-                        checks = [('from_sec1_bytes succeeded (on-curve, in range, non-identity)', outs.get('elliptic_curve::public_key::PublicKey::from_sec1_bytes') == 'Ok')]
-                elif name == 'deserialize_sk':
-                    if ke == 'r255':
-                        canon = any(e[0] == 'outcome' and e[2] == 'Some' and find_apps(e[1], 'curve25519_dalek::scalar::Scalar::from_canonical_bytes') for e in p.events)
-                        checks = [('canonical scalar', canon), ('!= 0', ne_const(is_zero))]
-                    elif ke == 'c25519':
-                        fixed = any(t[0] == 'app' and t[1] == 'eq' and v == 1 and any(x[0] == 'app' and 'clamp_integer' in x[1] for x in t[2]) and Sym('bytes') in t[2] for t, v in assumes)
-                        checks = [('clamping fixed point', fixed), ('!= 0', ne_const(is_zero))]
-                    else:
-                        checks = [('from_slice succeeded (non-zero, below the order)', outs.get('elliptic_curve::secret_key::SecretKey::from_slice') == 'Ok')]
-                else:
-                    if ke == 'c25519':
-                        checks = [('clamped', bool(find_apps(val, 'curve25519_dalek::scalar::clamp_integer')))]
-                    else:
-                        nz = any(t[0] == 'app' and t[1] == 'KeGroup::is_zero_scalar' and v == 0 and t[2][0] == val for t, v in assumes)
-                        checks = [('Ok only after is_zero_scalar(result) = false', nz)]
-                for what, good in checks:
-                    n_filters += int(good)
-                    inst = what if what.startswith('Curve25519') else 'KeGroup::%s (%s): %s' % (name, ke, what)
-                    rep.ob('R11.3', inst, good, 'filter not passed on an Ok path; assumptions on the path: %s ; outcomes: %s' % (
-                        [(show(t)[:100], v) for t, v in assumes][:6], outs), w, sn, sample='%s -> %s' % (inst, show(val)[:100]))
+        n_filters += group_filters(ctx, rep, 'R11.3', sn)
         # R11.5 explicit identity test on OPRF elements of login messages
         for nm in ('CredentialRequest', 'CredentialResponse'):
             d = ctx.summary(sn, DECODERS[nm] + '::deserialize', params=[Sym('input')])
